@@ -314,7 +314,7 @@ class Gen(object):
         if not self.modelled and 0.40 <= r < 0.43:
             self.features.add('python-pi')
             return '<?python pv = %s ?>' % rng.choice(['1', 'len("ab")', 'n'])
-        if not self.modelled and 0.43 <= r < 0.47:
+        if 0.43 <= r < 0.47:
             return self.lazy_element(loopvars)
         if not self.modelled and 0.47 <= r < 0.50:
             return self.match_block()
@@ -369,6 +369,16 @@ class Gen(object):
         xs = rng.choice(VARS_LIST)
         body = rng.choice(self.LAZY_BODIES) % {'v': v}
         kind = rng.choice(['lazy-genexp', 'lazy-genexp', 'lambda-late', 'codeblock-generator'])
+        if self.modelled:
+            # the step model has the generator expression and map(lambda): mostly those, with bodies of its
+            # expression fragment (the tuple body stays as a case that must come back `unmodelled`)
+            kind = rng.choice(['lazy-genexp'] * 4 + ['lambda-late'] * 3 + ['codeblock-generator'])
+            body = rng.choice(self.LAZY_BODIES + ["x == %(v)s", "'%%s:%%s;' %% (x, %(v)s)", "%(v)s", "not %(v)s",
+                                                  "'<%%s>' %% x"]) % {'v': v}
+            r = rng.random()
+            if r < 0.08:
+                xs = rng.choice(['s', 'n'])     # a string is iterated by character, a number raises where the
+                                                # expression stands
         self.features.add(kind)
         tag = rng.choice(TAGS)
         pre = ''
@@ -386,9 +396,19 @@ class Gen(object):
             pre = '<?python\ndef %s():\n    for x in %s:\n        yield %s\n?>' % (fn, xs, body)
             src = fn + '()'
         other = rng.choice(VARS_ATOM)
+        if self.modelled:
+            r = rng.random()
+            if r < 0.2:
+                # the loop variable has the name the body reads late: when the next item is computed the loop's
+                # scope is not on the context
+                return pre + '<%s py:for="%s in %s">$%s<b>$%s</b></%s>' % (tag, v, esc_attr(src), v, other, tag)
+            if r < 0.4:
+                # the name is rebound around the loop: the body sees the binding in force at each next()
+                return pre + ('<%s py:with="%s=%s"><i py:for="v in %s">$v</i>$%s</%s>'
+                              % (tag, v, rng.choice(VARS_ATOM + ["'W'"]), esc_attr(src), other, tag))
         if rng.random() < 0.6:
             return pre + '<%s py:for="v in %s">$v<b>$%s</b></%s>' % (tag, esc_attr(src), other, tag)
-        return pre + '<%s>$%s${%s}</%s>' % (tag, other, src, tag)
+        return pre + '<%s>$%s${%s}</%s>' % (tag, other, src.replace('<', '&lt;'), tag)
 
     # a match template whose path test keeps state between events (multi-step, positional predicates, on
     # the first step too) next to a literal fragment on which it fires: a test function / position counter
